@@ -208,7 +208,6 @@ func H_C17_twins() {
 
 var _ = register("H_C17_twins", H_C17_twins)
 
-
 // H_C17_pin: writes with the Pin option over a pin service that may fail, including a second replica of the same
 // identity and log repeating an append that is already stored (a byte-identical block). Whatever a failed pinned
 // write does, no block a successful operation returned earlier disappears and the store stays causally closed.
